@@ -168,6 +168,13 @@ impl GrammarBuilder {
             let term_idx = self.get_term_idx();
             self.check_identifier(&terminal.name)?;
             self.check_reserved(&terminal.name)?;
+            if self.terminals.contains_key(terminal.name.as_ref()) {
+                err!(
+                    format!("Terminal '{}' is defined more than once.", &terminal.name),
+                    Some(self.file.clone()),
+                    terminal.name.span
+                )?
+            }
             self.terminals.insert(
                 terminal.name.as_ref().to_string(),
                 Terminal {
